@@ -177,16 +177,39 @@ static EPISODE_LABEL: std::sync::Mutex<String> = std::sync::Mutex::new(String::n
 /// (never as a violation) and makes the run incomplete.
 fn start_watchdog(limit_s: u64) {
     let t0 = std::time::Instant::now();
-    std::thread::spawn(move || loop {
+    std::thread::spawn(move || {
+        // livelock window: (start instant, client-visible events, hook points) at the last moment
+        // a client-visible event was recorded
+        let mut win = (std::time::Instant::now(), 0u64, 0u64);
+        loop {
         std::thread::sleep(std::time::Duration::from_millis(500));
         let started = EPISODE_STARTED_MS.load(std::sync::atomic::Ordering::SeqCst);
         if started == 0 {
+            win = (std::time::Instant::now(), rec::GLOBAL_EVENTS.load(std::sync::atomic::Ordering::Relaxed), deltio::verif::activity());
             continue;
+        }
+        // A server that spins: millions of actor turns / mailbox sends without a single
+        // client-visible event (no call issued or returned, nothing delivered). Decided on work
+        // done, not on elapsed time: a slow machine does little, it does not do millions of
+        // turns for nobody.
+        let ev = rec::GLOBAL_EVENTS.load(std::sync::atomic::Ordering::Relaxed);
+        let hp = deltio::verif::activity();
+        if ev != win.1 {
+            win = (std::time::Instant::now(), ev, hp);
+        } else if hp.saturating_sub(win.2) >= 5_000_000 && win.0.elapsed().as_secs() >= 10 {
+            eprintln!(
+                "EPISODE-LIVELOCK: {}: {} hook points (actor turns, mailbox sends, replies) in {} s without one client-visible event",
+                EPISODE_LABEL.lock().unwrap(),
+                hp - win.2,
+                win.0.elapsed().as_secs()
+            );
+            std::process::exit(98);
         }
         let now = t0.elapsed().as_millis() as u64 + 1;
         if now.saturating_sub(started) > limit_s * 1000 {
             eprintln!("EPISODE-WATCHDOG: {} did not finish within {} s of wall time", EPISODE_LABEL.lock().unwrap(), limit_s);
             std::process::exit(97);
+        }
         }
     });
     WATCHDOG_T0.get_or_init(|| t0);
